@@ -67,6 +67,8 @@ func parseTree(s string) (*proto.Message, string) {
 			t = proto.BulkMessage
 		}
 		return proto.NewMessageWithType(t).SetBytes(payload), s[j+1:]
+	case 'N': // an array-typed message whose array was never set (what a handler gets from NewMessageWithType(ArrayMessage))
+		return proto.NewMessageWithType(proto.ArrayMessage), s[1:]
 	case 'a':
 		arr := proto.NewArray()
 		rest := s[2:]
@@ -247,6 +249,8 @@ func modeParse(args []string) {
 // modeEncode: line "<tree>" ; out "<idx> <hex of RESPBytes | ERR | P> <reparse-tree>"
 func modeEncode(args []string) {
 	idx := 0
+	var prevB []byte // the bytes RESPBytes returned for the previous value, and what they were then: an encoding
+	var prevS string // stays what it was when further values are encoded (a reply waits in a write while others are built)
 	stdinLines(func(line string) {
 		line = strings.TrimSpace(line)
 		if line == "" {
@@ -275,6 +279,10 @@ func modeEncode(args []string) {
 				bt = treeOf(back)
 			}
 			res = hx(b) + " " + bt + " " + reser
+			if prevB != nil && string(prevB) != prevS {
+				res = "ALIAS " + hx([]byte(prevS)) + " " + hx(prevB)
+			}
+			prevB, prevS = b, string(b)
 		}()
 		fmt.Fprintf(out, "%d %s\n", idx, res)
 		idx++
